@@ -11,6 +11,7 @@ var declsHarness = []HarnessFile{
 }
 
 var declsOverrides = map[string]string{
+	"golang.org/x/tools/go/packages.Load": goosePkg + ".verifStubLoad",
 	"(" + goosePkg + ".errorReporter).printGo": goosePkg + ".verifStubPrintGo",
 	"(" + goosePkg + ".Ctx).maybeDecls":        goosePkg + ".verifStubMaybeDecls",
 }
@@ -75,8 +76,9 @@ func init() {
 			{PkgPath: goosePkg, Func: "verifC06Deterministic", Opt: big, Replay: "model"},
 			{PkgPath: goosePkg, Func: "verifC06SortedFiles", Opt: big},
 			{PkgPath: goosePkg, Func: "verifC06SortedFilesSym", Opt: big},
+			{PkgPath: goosePkg, Func: "verifC06Workers", Opt: big, Replay: "model"},
 		},
-		Covers: []string{"c06/decls", "c06/sortedfiles", "c06/sortedfiles-sym"},
+		Covers: []string{"c06/decls", "c06/sortedfiles", "c06/sortedfiles-sym", "c06/workers"},
 		Bounds: "ordering kernels only: Decls run twice under independently chosen map-iteration orders (N ≤ 3 declarations, all dependency relations, ≤ 2 files); sortedFiles on all permutations of 3 files and on 2 files with fully symbolic 2-byte names",
 		Assumptions: []string{
 			"partial claim: determinism of the whole tool (translator proper inside concurrent workers, GOMAXPROCS, go/packages) is outside; only the kernels that order output are decided",
